@@ -379,6 +379,8 @@ def monitors(h, out, default_group=1):
     user_bufs, user_buses = set(), set()
     bus_blocks = set()
     nbuf = 0
+    nbus = 0
+    bus_objs, bus_audio = {}, {}
     depth = 0
     pending = []                # messages expected at the outermost flush, for M5
     for i, (op, st) in enumerate(zip(ops, steps)):
@@ -427,6 +429,36 @@ def monitors(h, out, default_group=1):
             got = [(m[1][1][1] if cmd == '/s_new' else m[1][0][1]) for m in msgs if m[0] == cmd]
             if ids_new and got != ids_new:
                 bad.append((None, 'op %d (%s): expected creation command %s with id %s, got %s' % (i, o, cmd, ids_new, [m[0] for m in msgs])))
+        # add action of the creation command = the reference number of the requested action
+        if depth == 0 and o in ('synth', 'group') and st['exc'] is None:
+            c = op.get('ctor', 'init')
+            want = 4 if c == 'replace' else scproto.REF_ACTIONS[CONV_ACTION[c] if c in CONV_ACTION else op['action']]
+            for m in msgs:
+                if m[0] in ('/s_new', '/g_new', '/p_new') and not scproto.conforms(m):
+                    got_a = m[1][2][1] if m[0] == '/s_new' else m[1][1][1]
+                    if got_a != want:
+                        bad.append((None, 'op %d (%s %s): add action %s requested, %s sent (reference number %s)' % (
+                            i, o, c, op['action'] if c == 'init' else c, got_a, want)))
+        # buses: free returns the block
+        if o == 'bus_free' and st['exc'] is None:
+            u = op['u']
+            if bus_objs.get(u) is not None:
+                blk = [b for b in bus_blocks if b[0] == bus_objs[u]]
+                for b in blk:
+                    kind = 'abus' if bus_audio[u] else 'cbus'
+                    if [kind, b[0], b[1]] not in st['free']:
+                        bad.append((None, 'op %d: Bus.free() did not return block %s to the %s allocator' % (i, b, kind)))
+                    bus_blocks.discard(b)
+                bus_objs[u] = None
+            elif st['free']:
+                bad.append((None, 'op %d: second Bus.free() freed %s' % (i, st['free'])))
+        if o == 'bus_new' and st['exc'] is None:
+            a = [x for x in st['alloc'] if x[0] in ('cbus', 'abus')]
+            bus_objs[nbus] = a[0][1] if a else None
+            bus_audio[nbus] = op['audio']
+            nbus += 1
+        elif o == 'bus_new':
+            bus_objs[nbus] = None; bus_audio[nbus] = op['audio']; nbus += 1
         # M4: free
         if o == 'b_free':
             num = buf_objs.get(op['b'])
@@ -468,9 +500,9 @@ def monitors(h, out, default_group=1):
                 if kind == 'node' and x not in node_known:
                     bad.append((None, 'op %d (%s): %s mentions node id %s which the client never allocated' % (i, o, m[0], x)))
                 if kind == 'buf':
-                    owned = x in live_before or x in created or any(b[0] <= x < b[0] + b[1] for b in blocks_before | buf_blocks) \
-                        or x in user_bufs or o in ('b_read', 'b_update_info', 'b_alloc', 'b_cue', 'b_alloc_read', 'b_alloc_read_channel') and False
-                    if not owned and not any(t.get('stale') for t in []):
+                    owned = x in live_before or x in created or x in user_bufs or \
+                        any(b[0] <= x < b[0] + b[1] for b in blocks_before | buf_blocks)
+                    if not owned:
                         # buffers made stale by free_all keep their numbers client side: the history generator never uses them again
                         bad.append((SIG_F15 if o == 'b_free' else None,
                                     'op %d (%s): %s mentions buffer %s which no live client object owns' % (i, o, m[0], x)))
@@ -504,6 +536,16 @@ def bind_metamorphic(h, out, flat_out):
     ops = h['ops']
     flat_steps = iter(flat_out['steps'])
     stack = []
+    # the block allocator picks among freed blocks with bi.choice over a set: two runs of the same ops may get
+    # different (equally valid) numbers once something was freed and allocated again; compare shapes only then
+    freed_kinds, reuse = set(), False
+    for st in out['steps']:
+        for a in st['alloc']:
+            if a[0] in freed_kinds:
+                reuse = True
+        for f in st['free']:
+            freed_kinds.add(f[0])
+    norm = (lambda ms: [(m[0], len(m[1])) for m in ms]) if reuse else (lambda ms: ms)
     for i, (op, st) in enumerate(zip(ops, out['steps'])):
         o = op['op']
         if o == 'bind_enter':
@@ -514,7 +556,7 @@ def bind_metamorphic(h, out, flat_out):
                 stack[-1].extend(top)
             else:
                 got = [m for ev in st['ev'] for m in event_msgs(ev)]
-                if st['exc'] is None and got != top:
+                if st['exc'] is None and norm(got) != norm(top):
                     bad.append((None, 'op %d: bundle at bind() exit differs from the commands issued inside, in order: got %s, issued %s' % (
                         i, [m[0] for m in got], [m[0] for m in top])))
                 if st['exc'] is None and top and len(st['ev']) != 1:
@@ -771,6 +813,8 @@ def search(ctx, failures):
         hmin = shrink(ctx, h, still_bad) if len(h['ops']) > 4 else h
         oo = ctx.impl('c17_hist', {'histories': [hmin['ops'], strip_binds(hmin['ops'])]}, timeout=120)['out']
         tt = monitors(hmin, oo[0]) + bind_metamorphic(hmin, oo[0], oo[1])
+        if not tt:
+            continue
         found.append(Failure('search', 'property fails on the implementation: ' + '; '.join(t for _, t in tt[:3]),
                              signature=classify(tt), found_input=True,
                              replay={'history': hmin['ops'], 'observed': [[st['ev'], st['exc']] for st in oo[0]['steps']],
